@@ -1,7 +1,9 @@
 (* C13 — A repeating observer sees its producers' final output and then stops.  Property theorems only. *)
 From Coq Require Import ZArith List Bool Lia.
+From Coq Require String.
 Import ListNotations.
 Require Import V.Repeat.Model V.Repeat.Proofs V.Repeat.Final V.Repeat.Producers V.Repeat.Steps.
+Require Import V.Repeat.RefsModel V.Repeat.RefsProofs.
 Open Scope Z_scope.
 
 (* Never executes before there is output it can consume: in every run (any interleaving of clock advances,
@@ -174,6 +176,59 @@ Proof.
 Qed.
 Print Assumptions C13_steps2_cancelled_then_stops.
 
+(* WHOM the observer waits for (ComponentState.producers, run by ComponentState.stageIn).  The producer list has one
+   entry per component id the observer's references resolve to, looked up in the graph by the PAIR (stage, name) -
+   component names are unique within a stage only.  If the graph's keys are unique and every living producer is an
+   instantiated component the observer references (any number of references to it, in any order, next to references
+   to same-named components of other stages and to components that were not instantiated), the list contains it ... *)
+Theorem C13_producer_list_complete : forall g refs al w,
+  keys_unique g -> references_living g refs al -> producers_of g refs = Some w ->
+  forall i, is_alive al i = true -> In i w.
+Proof. exact producers_cover. Qed.
+Print Assumptions C13_producer_list_complete.
+
+(* ... it contains nothing but instantiated components the observer references (the observer never waits for a
+   stranger), and it exists whenever every reference names a node of the graph *)
+Theorem C13_producer_list_exact : forall g refs,
+  (forall w, producers_of g refs = Some w ->
+     forall i, In i w -> exists n, In n g /\ g_comp n = Some i /\ In (g_id n) (concat refs)) /\
+  ((forall r, In r (concat refs) -> exists n, In n g /\ g_id n = r) -> exists w, producers_of g refs = Some w).
+Proof.
+  intros g refs. split; [intros w; apply producers_only_referenced|].
+  intros H. exact (resolve_defined g (concat refs) H).
+Qed.
+Print Assumptions C13_producer_list_exact.
+
+(* ... hence what the engine sees when stageIn merges the notifyFinished of the living entries of that list
+   (ptrace_w) is what it sees when ALL living producers are waited for (ptrace_from, the producer model of
+   C13_producers_are_quiet): the notification is delivered when the last living producer finishes, no output
+   follows it; and the producer-level scripts of the correspondence, run with the pending list of the merge
+   (run_steps4), are the scripts of C13_producer_scripts_are_quiet *)
+Theorem C13_waits_for_all_living_producers : forall c g refs al w pes,
+  keys_unique g -> references_living g refs al -> producers_of g refs = Some w ->
+  ptrace_w w al pes = ptrace_from al pes /\
+  (Forall env_ok pes -> quiet c (init c) (ptrace_w w al pes)).
+Proof. exact waits_for_all_living. Qed.
+Print Assumptions C13_waits_for_all_living_producers.
+
+Theorem C13_reference_scripts_are_producer_scripts : forall c g refs al w l,
+  keys_unique g -> references_living g refs al -> producers_of g refs = Some w ->
+  let pend := pending0 w al in
+  (if is_nil pend then step c (init c) Notify else init c) = (if all_dead al then step c (init c) Notify else init c) /\
+  forall s, run_steps4 c pend al s l = run_steps3 c al s l.
+Proof. exact scripts4_are_scripts3. Qed.
+Print Assumptions C13_reference_scripts_are_producer_scripts.
+
+(* the final-output clause with the producers found through the observer's references *)
+Theorem C13_sees_final_output_references : forall c g refs al w pes,
+  c_has_delay c = false -> keys_unique g -> references_living g refs al -> producers_of g refs = Some w ->
+  Forall env_ok pes ->
+  let s := run c (init c) (ptrace_w w al pes) in
+  cancel s = true -> consume s = true ->
+  exists x, In x (execs s) /\ forall i p l, nth_error (c_prods c) i = Some p -> lo_of (lo s) i = Some l -> l <= x_launch x.
+Proof. exact sees_final_output_refs. Qed.
+Print Assumptions C13_sees_final_output_references.
+
 (* non-vacuity: default retries; an execution, the notification, a failed execution, a poll without new output,
    new output and a successful execution: two retries used, the engine stops by itself *)
 Definition pr (same rep : bool) : prod := {| p_same := same; p_rep := rep |}.
@@ -223,4 +278,44 @@ Example C13_never_executed_nonvacuous :
 Proof.
   vm_compute. repeat split; try reflexivity; try (intro H; discriminate H); try (intros _ j H; discriminate H);
     try (intros H j; discriminate H).
+Qed.
+
+(* the hypotheses about references are satisfiable where they matter: the observer (stage 2) references its running
+   same-stage subject stage2.sim FIRST and then the finished stage0.sim - the same NAME in another stage -, the
+   subject once more through a loop reference that also stands for stage1.sim, a component that was never
+   instantiated; stage1.obs is a same-named stranger.  The producer list is [subject; old; subject] - nothing
+   collapses -, the subject is waited for: it writes, finishes (that is the notification), and the observer
+   executes after that last output and stops *)
+Import String.
+Definition ex_id (s : Z) (n : String.string) : cid := {| i_stage := s; i_name := n |}.
+Definition ex_g : list gnode :=
+  [ {| g_id := ex_id 0 "sim"%string; g_comp := Some 1%nat |}; {| g_id := ex_id 1 "sim"%string; g_comp := None |};
+    {| g_id := ex_id 2 "sim"%string; g_comp := Some 0%nat |}; {| g_id := ex_id 2 "obs"%string; g_comp := Some 7%nat |};
+    {| g_id := ex_id 1 "obs"%string; g_comp := Some 8%nat |} ].
+Definition ex_refs : list (list cid) := [[ex_id 2 "sim"%string]; [ex_id 0 "sim"%string]; [ex_id 2 "sim"%string; ex_id 1 "sim"%string]].
+Definition ex_cfg3 : cfg := {| c_retries := None; c_prods := [pr true true; pr false true];
+  c_check_out := true; c_has_delay := false; c_interval := 10000; c_t0 := 100000 |}.
+Definition ex_pes3 : list pevent :=
+  [PWrite 0; PWrite 1; PEnv (Poll (ex_o 0)); PEnv (Adv 5000); PFinish 1; PEnv (Poll (ex_o 0)); PEnv (Adv 5000); PWrite 0; PFinish 0;
+   PEnv (Poll (ex_o 0)); PEnv (Adv 5000); PEnv (Poll (ex_o 0))].
+Example C13_references_nonvacuous :
+  keys_unique ex_g /\ references_living ex_g ex_refs [true; false] /\
+  producers_of ex_g ex_refs = Some [0; 1; 0]%nat /\ pending0 [0; 1; 0]%nat [true; false] = [0; 0]%nat /\
+  Forall env_ok ex_pes3 /\
+  ptrace_w [0; 1; 0]%nat [true; false] ex_pes3 =
+    [Out 0; Poll (ex_o 0); Adv 5000; Poll (ex_o 0); Adv 5000; Out 0; Notify; Poll (ex_o 0); Adv 5000; Poll (ex_o 0)] /\
+  let s := run ex_cfg3 (init ex_cfg3) (ptrace_w [0; 1; 0]%nat [true; false] ex_pes3) in
+  cancel s = true /\ consume s = true /\ lo s = [Some 110000; None] /\
+  map x_launch (rev (execs s)) = [110000] /\ mon_done s = true.
+Proof.
+  split.
+  { intros n m Hn Hm. cbn in Hn, Hm.
+    repeat (destruct Hn as [<-|Hn]; [repeat (destruct Hm as [<-|Hm]; [first [reflexivity|intros H; discriminate H]|]); destruct Hm|]).
+    destruct Hn. }
+  split.
+  { intros [|[|[|i]]] H; try discriminate H.
+    exists {| g_id := ex_id 2 "sim"%string; g_comp := Some 0%nat |}. cbn. auto 10. }
+  split; [reflexivity|]. split; [reflexivity|].
+  split; [repeat constructor; try discriminate; cbn; try lia|].
+  vm_compute. repeat split; reflexivity.
 Qed.
